@@ -48,7 +48,7 @@ func genC12(t *rapid.T) *c12Case {
 			c.Opts.Method = 4
 		}
 	}
-	content := rapid.SampledFrom([]string{"photo", "tiled", "tiled", "pal16", "pal256", "gradient", "noise", "sparse", "regions", "regions", "regions"}).Draw(t, "content")
+	content := rapid.SampledFrom([]string{"photo", "tiled", "tiled", "pal16", "pal256", "gradient", "noise", "sparse", "regions", "regions", "regions", "bands", "bands", "bands"}).Draw(t, "content")
 	alpha := rapid.SampledFrom([]string{"opaque", "opaque", "gradient", "binary"}).Draw(t, "alpha")
 	seed := rapid.Uint64().Draw(t, "seed")
 	if c.Opts.Lossless && rapid.Bool().Draw(t, "highQ") {
